@@ -92,6 +92,11 @@ func TestWorker(t *testing.T) {
 			}
 			seed := SeedFor(job.SeedBase, i)
 			emit(Line{Kind: "start", Seed: seed})
+			if n := os.Getenv("SIM_TEST_DIE_AT_RUN"); n != "" && fmt.Sprint(runs) == n && job.Start == 0 {
+				// self-test of the orchestrator's handling of a dying worker
+				fmt.Fprintln(os.Stderr, "panic: simulated worker death (SIM_TEST_DIE_AT_RUN)")
+				os.Exit(2)
+			}
 			sched, res := core.SafeRun(eng, job.Property, seed, job.Tier, nil)
 			l := Line{Kind: "run", Seed: seed, Result: res}
 			if res == nil {
